@@ -61,6 +61,7 @@ type Frame struct {
 	curBlock *ssa.BasicBlock
 
 	blockReach map[int]Term
+	blockExit  map[int]Term
 	blockOut   map[int]*State
 	edgeCond   map[[2]int]Term
 	loops      map[int]*loopInfo
@@ -357,6 +358,12 @@ func (fr *Frame) run() {
 			fr.exec(ins)
 		}
 		fr.blockOut[b.Index] = fr.st
+		// the reach at the END of the block (narrowed by calls that may panic) guards its edges;
+		// blockReach keeps the entry condition for conditional defers
+		if fr.blockExit == nil {
+			fr.blockExit = map[int]Term{}
+		}
+		fr.blockExit[b.Index] = fr.reach
 		// back edges out of this block: re-establish invariants
 		for _, s := range b.Succs {
 			if fr.isBackEdge(b, s) {
@@ -373,8 +380,15 @@ type inEdge struct {
 	st    *State
 }
 
+func (fr *Frame) exitReach(b *ssa.BasicBlock) Term {
+	if r, ok := fr.blockExit[b.Index]; ok {
+		return r
+	}
+	return fr.blockReach[b.Index]
+}
+
 func (fr *Frame) edgeGuard(from, to *ssa.BasicBlock) Term {
-	r := fr.blockReach[from.Index]
+	r := fr.exitReach(from)
 	if c, ok := fr.edgeCond[[2]int{from.Index, to.Index}]; ok {
 		// both successors may be the same block
 		if len(from.Succs) == 2 && from.Succs[0] == from.Succs[1] {
@@ -469,7 +483,7 @@ func (fr *Frame) enterBlock(b *ssa.BasicBlock) {
 // edgeGuardSucc computes the guard for the pred->b edge, distinguishing If branches by
 // successor position (an If may have both successors equal).
 func (fr *Frame) edgeGuardSucc(p, b *ssa.BasicBlock, predIdx int) Term {
-	r := fr.blockReach[p.Index]
+	r := fr.exitReach(p)
 	if len(p.Succs) == 2 {
 		if p.Succs[0] == b && p.Succs[1] == b {
 			return r
@@ -691,6 +705,9 @@ func (fr *Frame) exec(ins ssa.Instruction) {
 	case *ssa.RunDefers:
 		fr.runDefers()
 	case *ssa.Return:
+		if fr.top == nil && fr.fc != nil && len(fr.fc.PanicsWhen) > 0 {
+			fr.oblige("panic.must", "", not(fr.panicCond()), x.Pos(), "returns normally only when the panics_when condition is false")
+		}
 		fr.returnAsserts(x)
 		var vs []Term
 		for _, r := range x.Results {
@@ -1416,15 +1433,11 @@ func (fr *Frame) execMakeSlice(x *ssa.MakeSlice) {
 
 func (fr *Frame) execPanic(x *ssa.Panic) {
 	top := fr.topFrame()
-	if top.fc != nil && len(top.fc.PanicsWhen) > 0 && fr.top == nil {
-		// allowed to panic exactly under the declared condition (evaluated at entry)
-		var conds []Term
-		for _, cl := range top.fc.PanicsWhen {
-			env := top.entryEnv()
-			t, _ := env.evalBool(cl.E)
-			conds = append(conds, t)
-		}
-		fr.oblige("panic.when", "", or(conds...), x.Pos(), "explicit panic only under panics_when")
+	if top.fc != nil && len(top.fc.PanicsWhen) > 0 {
+		// allowed to panic exactly under the declared condition (evaluated at entry), also when
+		// the panic statement sits in an inlined callee; and nothing may have been written yet
+		fr.oblige("panic.when", "", top.panicCond(), x.Pos(), "explicit panic only under panics_when")
+		fr.panicNoChange(x.Pos())
 		return
 	}
 	if top.recovers || (top.fc != nil && top.fc.Recover) {
@@ -1556,4 +1569,44 @@ func retPos(r *ssa.Return) token.Pos {
 		return token.Pos(1 << 40)
 	}
 	return r.Pos()
+}
+
+// panicCond: the declared panic condition of the function under verification, at entry.
+func (top *Frame) panicCond() Term {
+	var conds []Term
+	for _, cl := range top.fc.PanicsWhen {
+		env := top.entryEnv()
+		t, err := env.evalBool(cl.E)
+		if err != nil {
+			panic(err)
+		}
+		conds = append(conds, t)
+	}
+	return or(conds...)
+}
+
+// panicNoChange: a declared panic leaves everything as it was — every heap at the panic point
+// is the heap of the entry state.
+func (fr *Frame) panicNoChange(pos token.Pos) {
+	top := fr.topFrame()
+	var cs []Term
+	for _, hn := range sortedKeys(fr.st.heaps) {
+		cur := fr.st.heaps[hn]
+		ent, ok := top.entry.heaps[hn]
+		if !ok {
+			ent = fr.c.entryHeapByName(hn)
+		}
+		if cur.S == ent.S {
+			continue
+		}
+		if strings.HasPrefix(hn, "H_") {
+			// cells that existed at entry (locals spilled by the compiler are new objects)
+			cs = append(cs, Term{fmt.Sprintf("(forall ((p Ptr)) (=> (< (rootid p) alloc@0) (= (select %s p) (select %s p))))", cur.S, ent.S), SBool})
+		} else {
+			cs = append(cs, eq(cur, ent))
+		}
+	}
+	if len(cs) > 0 {
+		fr.oblige("panic.nochange", "", and(cs...), pos, "nothing was written before the declared panic")
+	}
 }
